@@ -118,7 +118,20 @@
     body!(body_priority, FrameType::Priority, 10);
     body!(body_rst_stream, FrameType::RstStream, 10);
     body!(body_settings, FrameType::Settings, 12);
-    body!(body_push_promise, FrameType::PushPromise, 10);
+    // PUSH_PROMISE is never accepted (a client must not send it, and sozu does not enable push towards backends):
+    // the generic body checks plus "never Ok" — so the vacuity cover of this harness is the refusal itself
+    #[kani::proof]
+    #[kani::unwind(14)]
+    fn body_push_promise() {
+        let buf: [u8; 12] = kani::any();
+        let header = FrameHeader { payload_len: kani::any(), frame_type: FrameType::PushPromise, flags: kani::any(), stream_id: kani::any() };
+        kani::assume(header.payload_len <= 10);
+        check_body(&buf[..], &header);
+        check_body(&buf[..4], &header);
+        assert!(frame_body(&buf[..], &header).is_err());
+        assert!(frame_body(&buf[..4], &header).is_err());
+        kani::cover!(frame_body(&buf[..], &header).is_err());
+    }
     body!(body_ping, FrameType::Ping, 10);
     body!(body_goaway, FrameType::GoAway, 10);
     body!(body_window_update, FrameType::WindowUpdate, 10);
